@@ -1051,3 +1051,16 @@ B('SBO-label-arm-no-offset', ['C05', 'C04'], 'index.py', 'LocMap.map_slice_args'
   '                    if offset_apply:\n                        pos += offset #type: ignore\n                else: # step', '                else: # step', 'I.slice-bounds-offset', 'map_slice_args')
 N('SBO-offset-binop', ['C05', 'C04'], 'index.py', 'LocMap.map_slice_args',
   '                    if offset_apply:\n                        pos += offset #type: ignore\n                else: # step', '                    if offset_apply:\n                        pos = pos + offset\n                else: # step')
+
+# ---------------------------------------------------------------------------------- a duplicate check in the sibling arm does not guard this arm (C09)
+B('D2-extend-series-blocks-first', ['C09'], 'frame.py', 'FrameGO.extend',
+  '            self._columns.append(container.name)\n            self._blocks.append(container.values)\n', '            self._blocks.append(container.values)\n            self._columns.append(container.name)\n',
+  'D2.validate-before-mutate', 'extend')
+
+# ---------------------------------------------------------------------------------- option consulted on every producing path (C02 / C03 / C05)
+B('OC-axis-values-fast-path', ['C02', 'C03', 'C05'], 'type_blocks.py', 'TypeBlocks.axis_values',
+  '            unified = self.unified\n            # iterate over rows; might be faster to create entire values\n',
+  '            unified = self.unified\n            if unified and not zero_size and self._blocks[0].ndim == 2:\n                yield from self._blocks[0]\n                return\n', 'I.option-consulted', 'axis_values')
+N('OC-axis-values-fast-path-after-test', ['C02', 'C03', 'C05'], 'type_blocks.py', 'TypeBlocks.axis_values',
+  '            unified = self.unified\n            # iterate over rows; might be faster to create entire values\n',
+  '            unified = self.unified\n            if not reverse and unified and not zero_size and self._blocks[0].ndim == 2:\n                yield from self._blocks[0]\n                return\n')
